@@ -25,7 +25,7 @@ RULE = ('case = one history (operation sequence) from the bounded-exhaustive enu
         'the evidence also reports distinct abstract model states visited')
 ASSUMPTIONS = ['two self-signatures made in the same second: either may count as the most recent', 'a certification revocation is not a self-certification: the effective '
                'parameters of a revoked identity are not compared']
-MIN_COUNTERS = {'quick': {'histories': 700, 'steps_checked': 1500, 'selfsigs_verified_by_reference': 4000, 'effective_params_compared': 3000, 'reimports': 1500},
+MIN_COUNTERS = {'quick': {'histories': 600, 'steps_checked': 1200, 'selfsigs_verified_by_reference': 3000, 'effective_params_compared': 2500, 'reimports': 1200},
                 'thorough': {'histories': 6000}}
 BUDGET = {'quick': (280, 800), 'thorough': (2400, 3600)}
 TECHNIQUE = 'runtime monitoring: history monitor against a sequential certificate model + reference verification of every export; bounded-exhaustive short histories + random deep walks'
